@@ -33,6 +33,9 @@ class Ev:
         return "%s(%s)@%s%s" % (self.kind, self.detail, fl(self.sp), " [in %s]" % self.nested if self.nested else "")
 
 
+_FG = [None]
+
+
 def variant_names(prog):
     a = prog.adts.get(SK)
     return [v["name"] for v in a["variants"]] if a else []
@@ -64,22 +67,47 @@ def agg_def(b, local):
 
 
 def agg_variants(b, local):
-    """Variant names of all aggregate definitions reaching `local` (through plain moves)."""
+    """Variant names of all aggregate definitions reaching `local`: through plain moves, and through the payload
+    of a Result / Option the value was wrapped in on the way (`let Err(err) = helper() ..` where the helper
+    builds `Err(ScheduleError::X {..})`)."""
     out = set()
     seen = set()
-    st = [local]
+    st = [(local, 0)]          # (local, number of Ok/Err/Some wrappers to strip)
     while st:
-        cur = st.pop()
-        if cur in seen or cur is None:
+        cur, strip = st.pop()
+        if (cur, strip) in seen or cur is None or strip > 2:
             continue
-        seen.add(cur)
+        seen.add((cur, strip))
         for bi, si, r in defs_of(b, cur):
             if si == "t":
+                # `res.map_err(|e| Error::X {..})`: the error is what the closure returns; the receiver carries the rest
+                cn = callee_names(r)
+                tail = cn[0].rsplit("::", 1)[-1] if cn else ""
+                if tail in ("map_err", "map", "or_else", "ok_or_else", "unwrap_or_else") and _FG[0] is not None:
+                    for a in r["args"]:
+                        ty = a["p"]["ty"] if a["k"] != "const" else a.get("ty", "")
+                        if "{closure:" in ty:
+                            for n_ in cn + [ty]:
+                                pass
+                            cid = ty[ty.index("{closure:") + 9:]
+                            cid = cid[:cid.rindex("}")] if cid.endswith("}") else cid
+                            for ck in _FG[0].by_id.get(cid, []):
+                                if strip:
+                                    out |= agg_variants(_FG[0].bodies[ck], 0)
+                    if r["args"] and r["args"][0]["k"] != "const" and not r["args"][0]["p"]["pr"]:
+                        st.append((r["args"][0]["p"]["l"], strip))
                 continue
             if r["k"] == "agg" and r.get("variant"):
-                out.add(r["variant"])
-            elif r["k"] == "use" and r["o"]["k"] != "const" and not r["o"]["p"]["pr"]:
-                st.append(r["o"]["p"]["l"])
+                if strip and r.get("adt", "") in ("core::result::Result", "core::option::Option") and r.get("ops") and r["ops"][0]["k"] != "const" and not r["ops"][0]["p"]["pr"]:
+                    st.append((r["ops"][0]["p"]["l"], strip - 1 if not r.get("thr") else strip))
+                elif not strip:
+                    out.add(r["variant"])
+            elif r["k"] == "use" and r["o"]["k"] != "const":
+                pr = r["o"]["p"]["pr"]
+                if not pr:
+                    st.append((r["o"]["p"]["l"], strip))
+                elif len(pr) == 2 and isinstance(pr[0], dict) and "dc" in pr[0] and isinstance(pr[1], dict) and pr[1].get("f") == 0:
+                    st.append((r["o"]["p"]["l"], strip + 1))
     return out
 
 
@@ -400,6 +428,7 @@ class Handler:
 
 
 def extract(fg):
+    _FG[0] = fg
     hs = {}
     for name in ("schedule", "validate", "run", "consts", "internal_consts_sent", "msg", "cancel", "handle_cmd", "check_consts", "start", "init_channel", "insert_consts"):
         owner = PS + name
